@@ -29,6 +29,9 @@ ASSUMPTIONS = ['sender_receivers dicts are total (a key for every party) with ke
                'a non-receiver may obtain None or an empty list from transfer (docstring leaves it open)']
 
 
+TIMEOUT_INCONCLUSIVE = True  # hangs are decided by quiescence in the simulator, not by the wall clock
+
+
 def budget(tier):
     return dict(shards=16, examples=60 if tier == 'quick' else 900)
 
